@@ -131,7 +131,7 @@ func (t *c09GateTask) Run(tid uint64) error {
 func (t *c09GateTask) HandleError(e error) {}
 
 // VerifC09ResizeSeq: "changing the worker count converges to the requested number", for a SEQUENCE of requests: the pool
-// has a workers of which a symbolic number is kept busy by gated tasks; SetWorkerCount(b) and SetWorkerCount(c) (non-waiting
+// has a workers of which a symbolic number is kept busy by gated tasks (with up to two more tasks queued behind them); SetWorkerCount(b) and SetWorkerCount(c) (non-waiting
 // form, b and c symbolic) follow each other while the gate is opened by another goroutine (so that reductions may still be
 // pending when the next request arrives); once everything has settled the pool has c workers, and with c > 0 every
 // accepted task ran exactly once.
@@ -140,7 +140,7 @@ func VerifC09ResizeSeq() {
 	a := 1 + zz.Choice("a", maxw)
 	b := zz.Choice("b", maxw+1)
 	c := zz.Choice("c", maxw+1)
-	busy := zz.Choice("busy", a+1)
+	busy := zz.Choice("busy", a+3) // up to a tasks keep the workers busy at the gate, further ones wait in the queue (a backlog)
 	tp := NewThreadPool()
 	zz.Schedule(zz.Param("P", 1))
 	tp.SetWorkerCount(a, true)
